@@ -14,6 +14,9 @@ import RuxModel.Generated.Facts
     use <hids>                   one `Router.Use` call
     group <gid> <prefix> <hids> <usehids>      group middleware (Group argument, then Use inside the group)
     route <rid> <gid|-> <methods> <pattern> <name> <main> <usecalls>   usecalls: `-` or `h.h/h` (one `/` part per Use)
+                                 (`RR`: the handler replaces c.Resp by a transparent wrapper and does not put the
+                                 old writer back; like `CP` it is no step of the model, the token is dropped; the
+                                 harness checks that no other request ever finds that wrapper in its context)
     notfound <hids> | notallowed <hids>
     onpanic <hid>                the OnPanic hook; together with the action `X` (panic) of a prog it is outside this
                                  model (Model/Conc: "not modelled: panics inside handlers"): the whole case is
@@ -99,7 +102,7 @@ def parseAct (s : String) : Option Act :=
   else none
 
 def parseActs (s : String) : Option (List Act) :=
-  if s = "-" then some [] else ((s.splitOn ",").filter (· ≠ "CP")).mapM parseAct
+  if s = "-" then some [] else ((s.splitOn ",").filter (fun t => t ≠ "CP" && t ≠ "RR")).mapM parseAct
 
 def parseLenCap (s : String) : Option (Nat × Nat) :=
   match s.splitOn ":" with
